@@ -2088,6 +2088,12 @@ impl<'a, 'b, W: Write> SerializeTupleVariant for TupleVariantSer<'a, 'b, W> {
         value.serialize(&mut *self.ser)
     }
     fn end(self) -> Result<()> {
+        // Like a finished block sequence: the hints staged after the last dash must not
+        // reach the next sibling value.
+        self.ser.last_value_was_block = true;
+        self.ser.pending_inline_map = false;
+        self.ser.after_dash_depth = None;
+        self.ser.inline_map_after_dash = false;
         Ok(())
     }
 }
